@@ -298,6 +298,11 @@ func stepDeadline(w *World) {
 	w.sch.mu.Lock()
 	defer w.sch.mu.Unlock()
 	for _, th := range w.sch.threads {
+		if !th.done && th.parked && th.kind == kindEnv && th.env.op == "write" && th.gen == w.sch.gen {
+			if c := th.env.conn; c.wdl.IsZero() && !c.closed {
+				w.Violate("C13", "write-without-deadline", "c%d: %s writes %d bytes without a write deadline although PauseTimeout is configured", c.id, th.name, len(th.env.buf))
+			}
+		}
 		if th.done || !th.parked || th.kind != kindEnv || th.env.op != "read" || th.gen != w.sch.gen {
 			continue
 		}
